@@ -173,19 +173,29 @@ type listener struct {
 	url      string
 	option   []transport.Option
 	options  *transport.Options
+	mutex    sync.Mutex // guards acceptor and closed
 	acceptor transport.Acceptor
+	closed   bool
 }
 
 // Acceptor returned the acceptor
 func (l *listener) Acceptor() transport.Acceptor {
+	l.mutex.Lock()
+	defer l.mutex.Unlock()
 	return l.acceptor
 }
 
 // Close listener
 func (l *listener) Close() error {
 	l.bs.removeListener(l.url)
-	if l.acceptor != nil {
-		return l.acceptor.Close()
+
+	l.mutex.Lock()
+	l.closed = true
+	acceptor := l.acceptor
+	l.mutex.Unlock()
+
+	if acceptor != nil {
+		return acceptor.Close()
 	}
 	return nil
 }
@@ -193,8 +203,17 @@ func (l *listener) Close() error {
 // Sync accept new transport from listener
 func (l *listener) Sync() error {
 
-	if nil != l.acceptor {
+	l.mutex.Lock()
+	started, closed := nil != l.acceptor, l.closed
+	l.mutex.Unlock()
+
+	if started {
 		return fmt.Errorf("duplicate call Listener:Sync")
+	}
+
+	// closed (or the bootstrap was shut down) before the accept loop started.
+	if closed {
+		return ErrServerClosed
 	}
 
 	var err error
@@ -202,13 +221,24 @@ func (l *listener) Sync() error {
 		return err
 	}
 
-	if l.acceptor, err = l.bs.transportFactory.Listen(l.options); nil != err {
+	acceptor, err := l.bs.transportFactory.Listen(l.options)
+	if nil != err {
 		return err
 	}
 
+	// publish the acceptor, unless Close arrived in the meantime: nobody else would close it.
+	l.mutex.Lock()
+	if l.closed {
+		l.mutex.Unlock()
+		_ = acceptor.Close()
+		return ErrServerClosed
+	}
+	l.acceptor = acceptor
+	l.mutex.Unlock()
+
 	for {
 		// accept the transport
-		t, err := l.acceptor.Accept()
+		t, err := acceptor.Accept()
 		if nil != err {
 			select {
 			case <-l.options.Context.Done():
